@@ -235,6 +235,27 @@ theorem resolveCA_canon (T : Tables) (L : LabTables) (al : List (String × GName
   intro it _
   exact canonItem_idem al h it
 
+/-! ## histories on one live circuit object -/
+
+theorem runHistory_append_resolve (T : Tables) (L : LabTables) (al : List (String × GName)) (v : FVariant)
+    (ops : List HOp) : ∀ (items : List CircItem) (b : BasisSpec),
+    runHistory T L al v items (ops ++ [.resolve b]) =
+      runHistory T L al v items ops ++ [resolveCA T L al v b (ops.foldl applyHOp items)] := by
+  induction ops with
+  | nil => intro items b; rfl
+  | cons op ops ih =>
+    intro items b
+    cases op with
+    | resolve b' =>
+      simp only [List.cons_append, runHistory, List.foldl_cons, applyHOp]
+      rw [ih]
+    | setTargets i ts => simp only [List.cons_append, runHistory, List.foldl_cons]; rw [ih]
+    | setControls i cs => simp only [List.cons_append, runHistory, List.foldl_cons]; rw [ih]
+    | setArg i a => simp only [List.cons_append, runHistory, List.foldl_cons]; rw [ih]
+    | setCond i c => simp only [List.cons_append, runHistory, List.foldl_cons]; rw [ih]
+    | append it => simp only [List.cons_append, runHistory, List.foldl_cons]; rw [ih]
+    | remove i => simp only [List.cons_append, runHistory, List.foldl_cons]; rw [ih]
+
 /-! ## spelling of the basis -/
 
 theorem normBasis_valid (y : GName) (hy : basis2qValid.contains y = true) :
